@@ -47,6 +47,13 @@ func (o *oenum) term(v ssa.Value, st map[ssa.Value]string) string {
 		return o.c.Path(x, nil)
 	case *ssa.Convert:
 		if isIntType(x.Type()) && isIntType(x.X.Type()) {
+			// signed -> unsigned is not order preserving (negative values wrap to huge ones): keep it opaque.
+			// unsigned -> signed of the same width is accepted under the stated assumption (values < 2^63).
+			db := x.Type().Underlying().(*types.Basic)
+			sb := x.X.Type().Underlying().(*types.Basic)
+			if db.Info()&types.IsUnsigned != 0 && sb.Info()&types.IsUnsigned == 0 {
+				return "conv<" + typeShort(x.Type()) + ">(" + o.term(x.X, st) + ")"
+			}
 			return o.term(x.X, st)
 		}
 	case *ssa.ChangeType:
